@@ -3,7 +3,7 @@ from pyvc.verify import Post, Case, Equiv
 from contracts import common
 
 PROPERTY = 'C10'
-REF_MODULES = ['ref_match', 'ref_extra', 'ref_core']
+REF_MODULES = ['ref_match', 'ref_extra', 'ref_core', 'h_ops']
 
 
 def config(cfg):
@@ -83,8 +83,33 @@ def contracts():
               requires=['len(self.children) >= 1'], ensures=['type(result) is And', 'same(result.children, self.children + (other,))'])]))
     cs.append(Post('matching.Or.__or__', cases=[Case('any', args={'self': 'inst:matching.Or', 'other': 'ref'},
               requires=['len(self.children) >= 1'], ensures=['type(result) is Or', 'same(result.children, self.children + (other,))'])]))
+    # the same laws stated on the OPERATORS, resolved by method dispatch on each concrete class (catches an operator method added to or
+    # overridden in a subclass, which the per-method contracts above would not execute)
+    for cname in ('And', 'Or', 'Not', '_MExpr', '_MType'):
+        st_ = 'inst:matching.%s' % cname
+        pre = ['len(x.children) >= 1'] if cname in ('And', 'Or') else []
+        cs.append(Post('h_ops.inv', helpers='h_ops', label='LEMMA C10.op[~%s]' % cname, cases=[
+            Case('any', args={'x': st_}, requires=pre, ensures=['type(result) is Not', 'result.child is x'])]))
+        if cname != 'And':
+            cs.append(Post('h_ops.conj', helpers='h_ops', label='LEMMA C10.op[%s&y]' % cname, cases=[
+                Case('any', args={'x': st_, 'y': 'ref'}, requires=pre,
+                     ensures=['type(result) is And', 'len(result.children) == 2', 'result.children[0] is x', 'result.children[1] is y'])]))
+        if cname != 'Or':
+            cs.append(Post('h_ops.disj', helpers='h_ops', label='LEMMA C10.op[%s|y]' % cname, cases=[
+                Case('any', args={'x': st_, 'y': 'ref'}, requires=pre,
+                     ensures=['type(result) is Or', 'len(result.children) == 2', 'result.children[0] is x', 'result.children[1] is y'])]))
     from contracts import extra
     cs += common.shared(extra, ['matching.Switch.__init__', 'matching._Bool.__init__'])
+    # Check's constructor: how each keyword becomes the tuples that glomit later walks
+    for name, kw in (('none', 'kw:'), ('validate', 'kw:validate'), ('type', 'kw:type'), ('instance_of', 'kw:instance_of'), ('equal_to', 'kw:equal_to'),
+                     ('one_of', 'kw:one_of'), ('equal_to+one_of', 'kw:equal_to,one_of'), ('default+type', 'kw:default,type'), ('bogus', 'kw:bogus')):
+        cs.append(Equiv('matching.Check.__init__', 'ref_match.check_init_ref', label='matching.Check.__init__[%s]' % name,
+                        args={'self': 'inst:matching.Check', 'spec': 'ref', 'kwargs': kw}, raise_only=name in ('bogus', 'equal_to+one_of'),
+                        loops={1: dict(vars=[('func', 'ref'), ('name', 'ref'), ('cond', 'ref')], ref_vars=[('func', 'ref'), ('name', 'ref'), ('cond', 'ref')])}))
+    cs.append(Equiv('matching.Regex.__init__', 'ref_match.regex_init_ref', args={'self': 'inst:matching.Regex', 'pattern': 'ref', 'flags': 'ref', 'func': 'ref'}))
+    cs.append(Equiv('matching._MType.__call__', 'ref_match.mtype_call_ref', args={'self': 'inst:matching._MType', 'spec': 'ref'}))
+    from contracts import X_ctor
+    cs += common.shared(X_ctor, ['matching.Not.__init__', 'matching._MExpr.__init__', 'matching._MSubspec.__init__'])
     return cs
 
 
@@ -126,7 +151,8 @@ ASSUMPTIONS = [
 TRUSTED = ['reference semantics contracts/ref_match.py']
 EXPLANATION = ('_Bool.glomit (And, Or), And._glomit, Or._glomit, Not.glomit, _MSubspec/_MType/_MExpr.glomit (63 operand-form x op cases), Switch.glomit and '
                'Check.glomit (32 keyword-shape cases) are proved equal to reference semantics; the op-code table of the M dunders and the & | ~ '
-               'constructors are proved as postconditions.')
+               'constructors are proved as postconditions, and restated as lemmas on the operators resolved by method dispatch per concrete class; '
+               'Check.__init__ (9 keyword shapes), Regex.__init__, M(spec) and the Not / _MExpr / _MSubspec constructors are under contract.')
 CANARIES = [
     {'name': 'Or: no short-circuit', 'module': 'matching', 'only': ['matching.Or._glomit'], 'expect': ['matching.Or._glomit'],
      'old': "                return scope[glom](target, child, scope)\n            except GlomError:\n                pass",
@@ -140,4 +166,6 @@ CANARIES = [
     {'name': 'M dunder: __ge__ records l', 'module': 'matching', 'only': ['matching._MType.__ge__'], 'expect': ['matching._MType.__ge__'],
      'old': "    def __ge__(self, other):\n        return _MExpr(self, 'g', other)\n\n    def __le__(self, other):\n        return _MExpr(self, 'l', other)\n\n    def __and__",
      'new': "    def __ge__(self, other):\n        return _MExpr(self, 'l', other)\n\n    def __le__(self, other):\n        return _MExpr(self, 'l', other)\n\n    def __and__"},
+    {'name': 'Not gains an __invert__ that unwraps', 'module': 'matching', 'only': ['LEMMA C10.op[~Not]'], 'expect': ['LEMMA C10.op[~Not]'], 'old': '    def __init__(self, child):\n        self.child = child\n', 'new': '    def __init__(self, child):\n        self.child = child\n\n    def __invert__(self):\n        return self.child\n'},
+    {'name': 'Check: empty type tuple accepted', 'module': 'matching', 'only': ['matching.Check.__init__[type]'], 'expect': ['matching.Check.__init__'], 'old': "lambda x: isinstance(x, type), type_arg, False)", 'new': "lambda x: isinstance(x, type), type_arg, True)"},
 ]
